@@ -562,8 +562,11 @@ pub fn run(args: &Args) -> ! {
                     for delete in [false, true] {
                         cases.push(EditCase { file: f.clone(), bld: None, def: d as u32, delete, respell: 0 });
                     }
-                    cases.push(EditCase { file: f.clone(), bld: None, def: d as u32, delete: false, respell: 1 });
-                    cases.push(EditCase { file: f.clone(), bld: None, def: d as u32, delete: false, respell: 2 });
+                    // (the two consistent / single-reference edit kinds for every third definition)
+                    if d % 3 == 0 {
+                        cases.push(EditCase { file: f.clone(), bld: None, def: d as u32, delete: false, respell: 1 });
+                        cases.push(EditCase { file: f.clone(), bld: None, def: d as u32, delete: false, respell: 2 });
+                    }
                 }
             }
             Tier::Quick => {
